@@ -166,11 +166,12 @@ pub struct GenOpts {
     pub unicode: bool,
     pub hex: bool,
     pub deprecated: bool,   // allow items whose upper version is below `version`
+    pub specials: bool,     // generate A2ML blocks (grammar-based definitions) and IF_DATA blocks (conforming / unknown content)
 }
 
 impl Default for GenOpts {
     fn default() -> Self {
-        GenOpts { version: 6, max_repeat: 2, opt_prob: 30, comments: true, unicode: true, hex: true, deprecated: false }
+        GenOpts { version: 6, max_repeat: 2, opt_prob: 30, comments: true, unicode: true, hex: true, deprecated: false, specials: false }
     }
 }
 
@@ -185,13 +186,15 @@ pub struct DocGen<'a> {
     pub ascending_positions: bool,
     pos_counter: u32,
     cur_site: String,
+    /// the A2ML definition generated for the current MODULE (IF_DATA content conforms to it)
+    a2ml_root: Option<crate::a2mlgen::T>,
 }
 
 pub const VERSIONS: [(u8, &str); 6] = [(1, "1 50"), (2, "1 51"), (3, "1 60"), (4, "1 61"), (5, "1 70"), (6, "1 71")];
 
 impl<'a> DocGen<'a> {
     pub fn new(g: &'a Grammar, rng: &'a mut Rng, opts: GenOpts) -> Self {
-        DocGen { g, rng, opts, out: vec![], counter: 0, budget: 400, ascending_positions: false, pos_counter: 0, cur_site: String::new() }
+        DocGen { g, rng, opts, out: vec![], counter: 0, budget: 400, ascending_positions: false, pos_counter: 0, cur_site: String::new(), a2ml_root: None }
     }
 
     fn push(&mut self, text: String, role: Role, depth: usize) {
@@ -328,6 +331,10 @@ impl<'a> DocGen<'a> {
         }
         for ai in order {
             let arm = &arms[ai];
+            if matches!(self.g.types.get(&arm.ty), Some(TyDef::Special)) && self.opts.specials {
+                self.gen_special(&arm.tag, &arm.ty, arm.repeat, depth + 1);
+                continue;
+            }
             if matches!(self.g.types.get(&arm.ty), Some(TyDef::Special) | None) {
                 continue;
             }
@@ -355,7 +362,55 @@ impl<'a> DocGen<'a> {
         }
     }
 
+    /// A2ML: a grammar-based definition as one raw token (0-2 blank lines before `/end A2ML`); IF_DATA: content that
+    /// conforms to the module's definition, or balanced unknown content
+    fn gen_special(&mut self, tag: &str, ty: &str, repeat: bool, depth: usize) {
+        if self.budget == 0 || !self.rng.chance(self.opts.opt_prob.max(20), 100) {
+            return;
+        }
+        if tag == "A2ML" {
+            let depth_a = 1 + self.rng.below(3);
+            let case = crate::a2mlgen::gen_a2ml(self.rng, depth_a);
+            let mut text = format!("\n{}", case.a2ml);
+            for _ in 0..self.rng.below(3) {
+                text.push('\n');
+            }
+            self.push_e("/begin".into(), Role::Begin, depth, ty);
+            self.push_e(tag.to_string(), Role::Tag, depth, ty);
+            self.push(text, Role::Param, depth);
+            self.push_e("/end".into(), Role::End, depth, ty);
+            self.push_e(tag.to_string(), Role::Tag, depth, ty);
+            self.a2ml_root = Some(case.root);
+            self.budget = self.budget.saturating_sub(1);
+        } else if tag == "IF_DATA" {
+            let n = if repeat { 1 + self.rng.below(self.opts.max_repeat) } else { 1 };
+            for _ in 0..n {
+                let content: Vec<String> = match (&self.a2ml_root, self.rng.chance(4, 5)) {
+                    (Some(root), true) => {
+                        let root = root.clone();
+                        crate::a2mlgen::gen_instance(self.rng, &root)
+                    }
+                    _ => ["VENDOR", "1", "0x2", "/begin", "X", "\"s\"", "2.5", "/end", "X", "tail"].iter().map(|x| x.to_string()).collect(),
+                };
+                self.push_e("/begin".into(), Role::Begin, depth, ty);
+                self.push_e(tag.to_string(), Role::Tag, depth, ty);
+                let mut after_marker = false;
+                for t in content {
+                    let role = if t == "/begin" { Role::Begin } else if t == "/end" { Role::End } else if after_marker { Role::Tag } else { Role::Param };
+                    after_marker = t == "/begin" || t == "/end";
+                    self.push(t, role, depth + 1);
+                }
+                self.push_e("/end".into(), Role::End, depth, ty);
+                self.push_e(tag.to_string(), Role::Tag, depth, ty);
+                self.budget = self.budget.saturating_sub(1);
+            }
+        }
+    }
+
     pub fn gen_element(&mut self, tag: &str, ty: &str, block: bool, depth: usize) {
+        if ty == "Module" {
+            self.a2ml_root = None;
+        }
         if block {
             self.push_e("/begin".into(), Role::Begin, depth, ty);
         }
@@ -435,7 +490,12 @@ pub fn render(toks: &[GTok], rng: &mut Rng, layout: Layout, crlf: bool) -> Strin
                 s.push_str(["  ", "\t", "   "][rng.below(3)]);
             }
         }
-        s.push_str(&t.text);
+        if crlf && t.text.contains('\n') {
+            // (the raw A2ML text uses the line ends of the file)
+            s.push_str(&t.text.replace('\n', "\r\n"));
+        } else {
+            s.push_str(&t.text);
+        }
         line_comment_open = t.role == Role::Comment && t.text.starts_with("//");
     }
     if rng.chance(3, 4) || line_comment_open {
